@@ -153,7 +153,11 @@ def run_smtp(cell):
                 fcode = '500'
             over[fault] = ('reply', fcode, [api.sstr('ftext', 1, 0x21, 0x7e)])
         elif fkind == 'malformed':
-            over[fault] = ('garbage', b'xyz\r\n')
+            over[fault] = ('garbage', [b'xyz\r\n', b'600 six hundred\r\n',
+                                       b'099 low\r\n', b'25 short\r\n',
+                                       b'250-one\r\n251 two\r\n',
+                                       b'250 caf\xe9 \xff\r\n'][
+                api.choice('garbage', 6)])
         elif fkind == 'close':
             over[fault] = ('close',)
         else:
